@@ -1,5 +1,7 @@
 -- all property theorem modules
+import HbsLms.Props.C03
 import HbsLms.Props.C04
+import HbsLms.Props.C05
 import HbsLms.Props.C06
 import HbsLms.Props.C08
 import HbsLms.Props.C09
